@@ -69,6 +69,7 @@ type c04Res struct {
 	Reveals  []vfReveal  `json:"reveals"`
 	Marks    []vfMark    `json:"marks"`
 	Returned bool        `json:"returned"`
+	EarlyAnswered bool   `json:"early_answered"` // banner / echo of the early data arrived before the client sent anything more
 	Ms       int64       `json:"ms"`
 }
 
@@ -304,12 +305,6 @@ func c04Run(s *vfStation, c c04Case) (res c04Res) {
 	var flight []byte
 	delay := time.Duration(c.DelayMs) * time.Millisecond
 
-	readN := func(r io.Reader, n int) []byte {
-		buf := make([]byte, n)
-		k, _ := io.ReadFull(r, buf)
-		return buf[:k]
-	}
-
 	if c.Transport == "obfs4" {
 		seg := &c04SegConn{Conn: cli, rawCuts: c.Cuts, delay: delay}
 		oc, err := wrapFn(seg)
@@ -345,6 +340,7 @@ func c04Run(s *vfStation, c c04Case) (res c04Res) {
 			}
 		}
 		res.Natural = []int{len(flight)}
+		res.EarlyAnswered = res.Err == ""
 	} else {
 		rec := &vfRecConn{}
 		if _, err := wrapFn(rec); err != nil {
@@ -366,8 +362,30 @@ func c04Run(s *vfStation, c c04Case) (res c04Res) {
 		} else {
 			bounds = c04Resolve(c.Cuts, len(flight), len(stream))
 		}
-		rdone := make(chan []byte, 1)
-		go func() { rdone <- readN(cli, want) }()
+		// the client reads the reply as it comes; `got` is signalled whenever more has arrived
+		var rmu sync.Mutex
+		var rbuf []byte
+		got := make(chan struct{}, 1)
+		rdone := make(chan struct{})
+		go func() {
+			defer close(rdone)
+			tmp := make([]byte, 32768)
+			for {
+				k, err := cli.Read(tmp)
+				rmu.Lock()
+				rbuf = append(rbuf, tmp[:k]...)
+				full := len(rbuf) >= want
+				rmu.Unlock()
+				select {
+				case got <- struct{}{}:
+				default:
+				}
+				if err != nil || full {
+					return
+				}
+			}
+		}()
+		have := func() int { rmu.Lock(); defer rmu.Unlock(); return len(rbuf) }
 		prev := 0
 		werr := error(nil)
 		for _, b := range append(bounds, len(stream)) {
@@ -382,18 +400,33 @@ func c04Run(s *vfStation, c c04Case) (res c04Res) {
 				}
 			}
 		}
-		if werr == nil && len(late) > 0 {
-			// let the early data come back first when there is any, then use the live connection
-			if len(data) > 0 {
-				time.Sleep(2 * time.Millisecond)
+		// a request/response client: it waits for the answer to what it has sent (banner and echo
+		// of the early data) before it sends anything else on the live connection
+		first := len(banner) + len(data)
+		res.EarlyAnswered = true
+		if werr == nil && first > 0 {
+			limit := time.After(c04Wait())
+			waiting := true
+			for waiting && have() < first {
+				select {
+				case <-got:
+				case <-rdone:
+					waiting = false
+				case <-limit:
+					waiting = false
+				}
 			}
+			res.EarlyAnswered = have() >= first
+		}
+		if werr == nil && len(late) > 0 {
 			_, werr = cli.Write(late)
 		}
 		if werr != nil {
 			res.Err = "client write: " + werr.Error()
 			cli.SetDeadline(time.Now())
 		}
-		reply = <-rdone
+		<-rdone
+		reply = rbuf
 	}
 	res.Flight = hex.EncodeToString(flight)
 	cli.Close()
